@@ -100,6 +100,7 @@ func (c *Command) UnmarshalBinary(uplink bool, data []byte) error {
 	}
 
 	c.CID = CID(data[0])
+	c.Payload = nil
 
 	p, err := GetCommandPayload(uplink, c.CID)
 	if err != nil {
@@ -451,6 +452,7 @@ func (p *DevUpgradeImageAnsPayload) UnmarshalBinary(data []byte) error {
 	}
 
 	p.Status.UpImageStatus = UpImageStatus(data[0] & 0x3)
+	p.nextFirmwareVersion = nil
 
 	if p.Status.IsFirmwareImageValid() {
 		if len(data) < p.Size() {
